@@ -1,8 +1,763 @@
-(* C05: theorems about models/Substituter.v *)
-From Coq Require Import List ZArith Bool String.
-From PySMT.core Require Import Syntax SyntaxLemmas.
+(* C05: theorems about models/Substituter.v (MGSubstituter / MSSubstituter / interpretations). *)
+From Coq Require Import List ZArith Bool String Reals Lia Lra.
+From Coq Require Import ClassicalDescription.
+From PySMT.core Require Import Syntax SyntaxLemmas PyPrims Sem.
 From PySMT.models Require Import TypeChecker Oracles Ctors Substituter.
+From PySMT.proofs Require Import Sets_proofs Coincidence.
 Import ListNotations.
+Open Scope bool_scope.
 
-Lemma lookup_nil t : lookup [] t = None.
+(* ------------------------------------------------------------------ statements' vocabulary *)
+(* every key of the map is a symbol *)
+Definition sym_keys (s : smap) : Prop := forall k v, In (k, v) s -> exists n ty, k = TSym n ty.
+
+(* the interpretation updated with the values of the replacement terms *)
+Definition upd (I : interp) (s : smap) : interp :=
+  {| isym := fun n ty => match lookup s (TSym n ty) with Some v => eval I v | None => isym I n ty end;
+     ifun := ifun I; rdiv0 := rdiv0 I; idiv0 := idiv0 I |}.
+
+(* the proviso: no free symbol of a replacement term falls under a quantifier binding it.
+   Only keys that survive the binder and are free in its body matter. *)
+Fixpoint no_capture (s : smap) (t : term) {struct t} : Prop :=
+  match t with
+  | T o args =>
+      match is_quant o with
+      | Some (_, vs) =>
+          match args with
+          | [b] => (forall k v, In (k, v) (drop_bound vs s) -> incl (fv k) (fv b) ->
+                                forall x, In x vs -> ~ In x (fv v))
+                   /\ no_capture (drop_bound vs s) b
+          | _ => True
+          end
+      | None => (fix all (l : list term) : Prop :=
+                   match l with [] => True | a :: r => no_capture s a /\ all r end) args
+      end
+  end.
+
+(* "Bool-valued by construction": used only for replacement terms of the form (not y) *)
+Fixpoint bool_term (y : term) : bool :=
+  match y with
+  | T o args =>
+      match o, args with
+      | OAnd, _ | OOr, _ | ONot, _ | OImplies, _ | OIff, _ | OBoolC _, _ | OLe, _ | OLt, _ | OEquals, _
+      | OBVRel _, _ | OForall _, _ | OExists _, _
+      | OStr SContains, _ | OStr SPrefixOf, _ | OStr SSuffixOf, _ => true
+      | OSymbol _ TBool, [] => true
+      | OFunction _ (TFun _ TBool), _ => true
+      | OIte, [_; a; b] => bool_term a && bool_term b
+      | _, _ => false
+      end
+  end.
+Definition neg_ok (v : term) : Prop :=
+  forall l, v = T ONot l -> exists y, l = [y] /\ bool_term y = true.
+Definition realc_ok (v : term) : Prop := forall n d l, v = T (ORealC n d) l -> l = [] /\ d <> 0%Z.
+Definition neg_values_ok (s : smap) : Prop := forall k v, In (k, v) s -> neg_ok v /\ realc_ok v.
+
+(* the fragment on which every constructor normalisation is proved meaning-preserving here *)
+Definition frag_op (o : op) (n : nat) : bool :=
+  match o with
+  | OPow | OArrayValue _ | OToReal | OBVRol _ _ | OBVRor _ _ | OBVZext _ _ | OBVSext _ _ => false
+  | OAnd | OOr | OPlus | OTimes => Nat.leb 2 n
+  | OFunction _ _ => Nat.leb 1 n
+  | ONot => Nat.eqb n 1
+  | OForall vs | OExists vs => match vs with [] => false | _ => true end
+  | ORealC n d => (let (n', d') := fr_norm n d in Z.eqb n' n && Z.eqb d' d) && negb (Z.eqb d 0)
+  | _ => true
+  end.
+Fixpoint frag (t : term) : bool :=
+  match t with
+  | T o args =>
+      frag_op o (List.length args)
+      && match o, args with ONot, [c] | ODiv, [_; c] => negb (is_not c) | _, _ => true end
+      && (fix all (l : list term) : bool := match l with [] => true | x :: r => frag x && all r end) args
+  end.
+
+(* ------------------------------------------------------------------ generic helpers *)
+Lemma omap_Forall2 {A B} (f : A -> option B) l l' :
+  omap f l = Some l' -> Forall2 (fun a b => f a = Some b) l l'.
+Proof.
+  revert l'. induction l as [|x r IH]; intros l'; cbn.
+  - intros [= <-]. constructor.
+  - destruct (f x) eqn:Ex; [|discriminate].
+    change ((fix go (l : list A) : option (list B) :=
+               match l with [] => Some [] | x :: r => match f x, go r with Some y, Some ys => Some (y :: ys) | _, _ => None end end) r)
+      with (omap f r).
+    destruct (omap f r) eqn:Er; [|discriminate]. intros [= <-]. constructor; auto.
+Qed.
+
+Lemma Forall2_length' {A B} (R : A -> B -> Prop) l l' : Forall2 R l l' -> List.length l = List.length l'.
+Proof. induction 1; cbn; congruence. Qed.
+
+Lemma lookup_In s k v : lookup s k = Some v -> In (k, v) s.
+Proof.
+  unfold lookup. induction s as [|[k' v'] r IH]; cbn [assoc_get]; [discriminate|].
+  destruct (term_eqb k k') eqn:E.
+  - intros [= <-]. apply term_eqb_eq in E. subst. now left.
+  - intros H. right. auto.
+Qed.
+
+Lemma lookup_sym_keys s t v : sym_keys s -> lookup s t = Some v -> exists n ty, t = TSym n ty.
+Proof. intros H L. apply lookup_In in L. eapply H; eauto. Qed.
+
+Lemma drop_bound_In vs s k v : In (k, v) (drop_bound vs s) -> In (k, v) s.
+Proof. unfold drop_bound. rewrite filter_In. tauto. Qed.
+
+Lemma lookup_drop_bound vs s k :
+  lookup (drop_bound vs s) k = if key_survives vs k then lookup s k else None.
+Proof.
+  unfold lookup, drop_bound. induction s as [|[k' v'] r IH]; cbn [filter assoc_get fst snd].
+  - now destruct (key_survives vs k).
+  - destruct (term_eqb k k') eqn:E.
+    + assert (k' = k) by (symmetry; now apply term_eqb_eq). subst k'.
+      destruct (key_survives vs k) eqn:S; cbn [assoc_get].
+      * now rewrite E.
+      * rewrite IH. reflexivity.
+    + destruct (key_survives vs k') eqn:S'; cbn [assoc_get]; [rewrite E|]; exact IH.
+Qed.
+
+Lemma key_survives_sym vs n ty : key_survives vs (TSym n ty) = negb (mem var_eqb (n, ty) vs).
+Proof. unfold key_survives. cbn. now rewrite andb_true_r. Qed.
+
+Lemma sym_keys_drop vs s : sym_keys s -> sym_keys (drop_bound vs s).
+Proof. intros H k v Hin. apply drop_bound_In in Hin. eauto. Qed.
+Lemma neg_values_drop vs s : neg_values_ok s -> neg_values_ok (drop_bound vs s).
+Proof. intros H k v Hin. apply drop_bound_In in Hin. eauto. Qed.
+
+Lemma frag_args o args : frag (T o args) = true -> Forall (fun a => frag a = true) args.
+Proof.
+  cbn [frag]. rewrite !andb_true_iff. intros [_ H]. induction args as [|x r IH]; constructor.
+  - apply andb_true_iff in H. tauto.
+  - apply IH. apply andb_true_iff in H. tauto.
+Qed.
+
+Lemma no_capture_args s o args : is_quant o = None -> no_capture s (T o args) ->
+  Forall (no_capture s) args.
+Proof.
+  intros Hq. cbn [no_capture]. rewrite Hq. induction args as [|x r IH]; intros H; constructor.
+  - tauto.
+  - apply IH. tauto.
+Qed.
+
+(* ------------------------------------------------------------------ binding lemmas *)
+Lemma bind_isym_out : forall vs xs J n ty, ~ In (n, ty) vs -> isym (bind J vs xs) n ty = isym J n ty.
+Proof.
+  induction vs as [|v vs IH]; intros xs J n ty Hn; destruct xs as [|x xs]; cbn [bind]; auto.
+  rewrite IH by (intros H; apply Hn; now right). cbn.
+  destruct (String.eqb n (fst v) && ty_eqb ty (snd v)) eqn:E; auto.
+  apply andb_true_iff in E. destruct E as [E1 E2]. apply String.eqb_eq in E1. apply ty_eqb_eq in E2.
+  exfalso. apply Hn. left. destruct v; cbn in *; subst; reflexivity.
+Qed.
+
+Lemma bind_isym_in : forall vs xs J J' n ty, vals_ok xs vs -> In (n, ty) vs ->
+  isym (bind J vs xs) n ty = isym (bind J' vs xs) n ty.
+Proof.
+  induction vs as [|v vs IH]; intros xs J J' n ty Hok Hin; [contradiction|].
+  destruct xs as [|x xs]; cbn in Hok; [contradiction|]. destruct Hok as [_ Hok]. cbn [bind].
+  destruct (in_dec (fun a b => sumbool_of_bool_var a b) (n, ty) vs) as [Hi|Hni].
+  - apply IH; auto.
+  - rewrite !bind_isym_out by auto. destruct Hin as [->|]; [|contradiction]. cbn.
+    now rewrite String.eqb_refl, ty_eqb_refl.
+Qed.
+
+Lemma bind_ifun : forall vs xs J, ifun (bind J vs xs) = ifun J.
+Proof. induction vs as [|v vs IH]; intros [|x xs] J; cbn [bind]; auto. now rewrite IH. Qed.
+Lemma bind_rdiv0 : forall vs xs J, rdiv0 (bind J vs xs) = rdiv0 J.
+Proof. induction vs as [|v vs IH]; intros [|x xs] J; cbn [bind]; auto. now rewrite IH. Qed.
+Lemma bind_idiv0 : forall vs xs J, idiv0 (bind J vs xs) = idiv0 J.
+Proof. induction vs as [|v vs IH]; intros [|x xs] J; cbn [bind]; auto. now rewrite IH. Qed.
+
+(* What the theorems need of an interpretation: Bool symbols and Bool-valued functions denote
+   Booleans.  (Implied by Sem.wf_interp; stated separately because wf_interp also asks for a value
+   of sort (TBV w) for negative w, which does not exist.) *)
+Definition bool_interp (I : interp) : Prop :=
+  (forall n, exists b, isym I n TBool = VBool b) /\
+  (forall n ps args, exists b, ifun I n (TFun ps TBool) args = VBool b).
+
+Lemma wf_bool_interp I : wf_interp I -> bool_interp I.
+Proof.
+  intros [H1 H2]. split.
+  - intros n. specialize (H1 n TBool). cbn in H1. destruct (isym I n TBool); try contradiction. eauto.
+  - intros n ps args. specialize (H2 n ps TBool args). cbn in H2.
+    destruct (ifun I n (TFun ps TBool) args); try contradiction. eauto.
+Qed.
+
+Lemma wf_bind1 I v x : bool_interp I -> has_ty x (snd v) -> bool_interp (bind1 I v x).
+Proof.
+  intros [H1 H2] Hx. split; [|exact H2]. intros n. cbn [bind1 isym].
+  destruct (String.eqb n (fst v) && ty_eqb TBool (snd v)) eqn:E; [|apply H1].
+  apply andb_true_iff in E. destruct E as [_ E]. apply ty_eqb_eq in E. rewrite <- E in Hx.
+  cbn in Hx. destruct x; try contradiction. eauto.
+Qed.
+Lemma wf_bind : forall vs xs I, bool_interp I -> vals_ok xs vs -> bool_interp (bind I vs xs).
+Proof.
+  induction vs as [|v vs IH]; intros [|x xs] I H Hok; cbn in *; auto; try contradiction.
+  destruct Hok. apply IH; auto. now apply wf_bind1.
+Qed.
+
+(* ------------------------------------------------------------------ Bool-valued terms *)
+Ltac break_match :=
+  repeat match goal with
+         | |- context [match ?x with _ => _ end] => destruct x
+         end.
+
+Lemma bool_term_val : forall y I, bool_interp I -> bool_term y = true -> exists b, eval I y = VBool b.
+Proof.
+  induction y as [o args IH] using term_ind'. intros I Hwf Hb.
+  destruct o; cbn [bool_term] in Hb; try discriminate; cbn [eval].
+  all: try solve [cbn; break_match; eauto | cbn; break_match; unfold vle, vlt; break_match; eauto].
+  - (* symbol *) destruct t; try discriminate. destruct args; [|discriminate].
+    destruct Hwf as [H1 _]. apply H1.
+  - (* function *) destruct t; try discriminate. destruct t; try discriminate.
+    destruct Hwf as [_ H2]. apply H2.
+  - (* ite *) destruct args as [|c [|a [|b [|d r]]]]; try discriminate.
+    apply andb_true_iff in Hb. destruct Hb as [Ha Hb].
+    inversion IH as [|? ? _ IH1]; subst. inversion IH1 as [|? ? IHa IH2]; subst.
+    inversion IH2 as [|? ? IHb _]; subst. cbn.
+    destruct (vbool (eval I c)); auto.
+  - (* bvrel *) cbn. unfold bvrel_sem. break_match; eauto.
+  - (* str *) destruct k; try discriminate; cbn; break_match; eauto.
+Qed.
+
+(* ------------------------------------------------------------------ rationals *)
+Lemma Q2R_norm n d : Q2R' (fst (fr_norm n d)) (snd (fr_norm n d)) = Q2R' n d.
+Proof.
+  unfold fr_norm. destruct (Z.eqb_spec d 0) as [->|Hd]; [reflexivity|].
+  pose proof (Z.gcd_divide_l n d) as [qn Hn]. pose proof (Z.gcd_divide_r n d) as [qd Hd'].
+  set (g := Z.gcd n d) in *.
+  assert (Hg : g <> 0%Z). { intros E. rewrite E in Hd'. lia. }
+  assert (En : (n / g = qn)%Z). { rewrite Hn at 1. now apply Z.div_mul. }
+  assert (Ed : (d / g = qd)%Z). { rewrite Hd' at 1. now apply Z.div_mul. }
+  cbv zeta. rewrite En, Ed.
+  assert (Hqd : qd <> 0%Z). { intros E. subst qd. lia. }
+  assert (R1 : IZR g <> 0%R) by (now apply not_0_IZR).
+  assert (R2 : IZR qd <> 0%R) by (now apply not_0_IZR).
+  unfold Q2R'. destruct (qd <? 0)%Z; cbn [fst snd]; rewrite Hn at 1; rewrite Hd' at 1.
+  - rewrite !opp_IZR, !mult_IZR. field. auto.
+  - rewrite !mult_IZR. field. auto.
+Qed.
+
+(* ------------------------------------------------------------------ evaluation is compositional *)
+Lemma eval_nonbinder I J o args args' :
+  is_quant o = None -> (forall n ty, o <> OSymbol n ty) ->
+  ifun I = ifun J -> rdiv0 I = rdiv0 J -> idiv0 I = idiv0 J ->
+  map (eval I) args = map (eval J) args' ->
+  eval I (T o args) = eval J (T o args').
+Proof.
+  intros Hq Hs Hf Hr Hi Hm.
+  assert (A : agree (fun _ => False) (fun _ => True) I J).
+  { repeat split; auto; try contradiction. intros n t _. now rewrite Hf. }
+  destruct o; cbn [eval]; try discriminate; try (rewrite Hm; apply (op_sem_agree _ _ _ _ _ _ A)).
+  - exfalso. eapply Hs; eauto.
+  - rewrite Hm, Hf. reflexivity.
+Qed.
+
+(* ------------------------------------------------------------------ constructors preserve meaning *)
+Lemma bvop_sem_width k w w' vs : bvop_sem k w vs = bvop_sem k w' vs.
 Proof. reflexivity. Qed.
+
+Lemma fold_vmul_real (x c : R) : fold_left vmul [VReal c] (VReal x) = VReal (x * c).
+Proof. reflexivity. Qed.
+
+Lemma mk_div_sem I a b r :
+  (forall n d l, b = T (ORealC n d) l -> l = [] /\ d <> 0%Z) ->
+  mk_div a b = Some r -> eval I r = eval I (T ODiv [a; b]).
+Proof.
+  intros Hb. unfold mk_div. destruct (is_zero b) eqn:Z; [intros [= <-]; reflexivity|].
+  destruct b as [ob bargs]. cbn [top].
+  destruct ob; try (intros [= <-]; reflexivity).
+  destruct (Hb _ _ _ eq_refl) as [-> Hden].
+  unfold fr_div. cbn [fst snd]. destruct (Z.eqb_spec num 0) as [->|Hn]; [discriminate|].
+  unfold mk_times, mk_real. rewrite !Z.mul_1_l.
+  pose proof (Q2R_norm den num) as Q1.
+  pose proof (Q2R_norm (fst (fr_norm den num)) (snd (fr_norm den num))) as Q2.
+  destruct (fr_norm (fst (fr_norm den num)) (snd (fr_norm den num))) as [n' d'] eqn:E. intros [= <-].
+  cbn [fst snd] in Q2. assert (Q : Q2R' n' d' = Q2R' den num) by congruence.
+  cbn [eval map op_sem fst snd].
+  assert (R1 : IZR den <> 0%R) by (now apply not_0_IZR).
+  assert (R2 : IZR num <> 0%R) by (now apply not_0_IZR).
+  destruct (eval I a); cbn; auto. rewrite Q. unfold Q2R'.
+  destruct (Req_EM_T (IZR num / IZR den) 0) as [E0|E0].
+  - exfalso. apply (Rmult_eq_compat_r (IZR den)) in E0. unfold Rdiv in E0.
+    rewrite Rmult_assoc, Rinv_l, Rmult_1_r, Rmult_0_l in E0; auto.
+  - f_equal. field. auto.
+Qed.
+
+Ltac args4 args := destruct args as [|?a [|?b [|?c [|?d ?rest]]]].
+
+Lemma rebuild_sem I o args r :
+  frag_op o (List.length args) = true ->
+  (forall a l, o = ONot -> args = [a] -> a = T ONot l -> exists y b, l = [y] /\ eval I y = VBool b) ->
+  (forall a b, o = ODiv -> args = [a; b] -> realc_ok b) ->
+  rebuild o args = Some r -> eval I r = eval I (T o args).
+Proof.
+  intros Hf Hnot Hdiv.
+  destruct o; try discriminate Hf.
+  all: try solve [args4 args; cbn in Hf |- *; try discriminate; intros [= <-]; reflexivity].
+  - (* not *) args4 args; try discriminate Hf. cbn [rebuild]. unfold mk_not. intros [= <-].
+    destruct a as [oa la]. unfold is_not. cbn [top].
+    destruct oa; try reflexivity.
+    destruct (Hnot _ _ eq_refl eq_refl eq_refl) as (y & bb & -> & Hy).
+    unfold arg. cbn [targs nth eval map op_sem]. rewrite Hy. cbn. now rewrite negb_involutive.
+  - (* function *) cbn [rebuild]. unfold mk_function. args4 args; try discriminate Hf;
+      (destruct t; try discriminate; destruct (Nat.eqb _ _); [|discriminate]; intros [= <-]; reflexivity).
+  - (* real constant *) args4 args; try discriminate. cbn [rebuild]. unfold mk_real. cbn [fst snd].
+    cbn [frag_op] in Hf. destruct (fr_norm num den) as [n' d'].
+    apply andb_true_iff in Hf. destruct Hf as [Hf _]. apply andb_true_iff in Hf. destruct Hf as [E1 E2].
+    apply Z.eqb_eq in E1. apply Z.eqb_eq in E2. subst. intros [= <-]. reflexivity.
+  - (* bv constant *) args4 args; try discriminate. cbn [rebuild]. unfold mk_bv.
+    destruct (v <? 0)%Z; [discriminate|]. destruct (2 ^ w <=? v)%Z; [discriminate|]. intros [= <-]. reflexivity.
+  - (* bv operators: the width payload is not used by the semantics *)
+    destruct k; args4 args; cbn; try discriminate; intros [= <-]; reflexivity.
+  - (* extract *) args4 args; try discriminate. cbn [rebuild]. unfold mk_bvextract.
+    destruct ((e <? s)%Z || (s <? 0)%Z); [discriminate|]. destruct (bv_width a <? e - s + 1)%Z; [discriminate|].
+    intros [= <-]. reflexivity.
+  - (* strings *) destruct k; cbn [rebuild]; unfold mk_strconcat;
+      try (destruct (Nat.eqb _ _); [|discriminate]); try (intros [= <-]; reflexivity).
+    args4 args; try discriminate; intros [= <-]; reflexivity.
+  - (* div *) args4 args; try discriminate. cbn [rebuild]. apply mk_div_sem. exact (Hdiv _ _ eq_refl eq_refl).
+Qed.
+
+Ltac head_done := split; [cbn; congruence | intros ?n ?d ?l [=]].
+
+Lemma rebuild_head o args r :
+  frag_op o (List.length args) = true -> o <> ONot -> rebuild o args = Some r ->
+  top r <> ONot /\ realc_ok r.
+Proof.
+  intros Hf Hn.
+  destruct o; try discriminate Hf; try congruence.
+  all: try solve [args4 args; cbn in Hf |- *; try discriminate; intros [= <-]; head_done].
+  - (* function *) cbn [rebuild]. unfold mk_function. args4 args; try discriminate Hf;
+      (destruct t; try discriminate; destruct (Nat.eqb _ _); [|discriminate]; intros [= <-]; head_done).
+  - (* real constant *) args4 args; try discriminate. cbn [rebuild]. unfold mk_real. cbn [fst snd].
+    cbn [frag_op] in Hf. destruct (fr_norm num den) as [n' d'].
+    apply andb_true_iff in Hf. destruct Hf as [Hf Hd]. apply andb_true_iff in Hf. destruct Hf as [E1 E2].
+    apply Z.eqb_eq in E1. apply Z.eqb_eq in E2. subst. intros [= <-].
+    split; [cbn; congruence|]. intros n d l [= <- <- <-]. split; auto.
+    apply negb_true_iff in Hd. now apply Z.eqb_neq.
+  - (* bv constant *) args4 args; try discriminate. cbn [rebuild]. unfold mk_bv.
+    destruct (v <? 0)%Z; [discriminate|]. destruct (2 ^ w <=? v)%Z; [discriminate|]. intros [= <-]. head_done.
+  - destruct k; args4 args; cbn; try discriminate; intros [= <-]; head_done.
+  - (* extract *) args4 args; try discriminate. cbn [rebuild]. unfold mk_bvextract.
+    destruct ((e <? s)%Z || (s <? 0)%Z); [discriminate|]. destruct (bv_width a <? e - s + 1)%Z; [discriminate|].
+    intros [= <-]. head_done.
+  - (* strings *) destruct k; cbn [rebuild]; unfold mk_strconcat;
+      try (destruct (Nat.eqb _ _); [|discriminate]); try (intros [= <-]; head_done).
+    args4 args; try discriminate; intros [= <-]; head_done.
+  - (* div *) args4 args; try discriminate. cbn [rebuild]. unfold mk_div.
+    destruct (is_zero b); [intros [= <-]; head_done|].
+    destruct (top b); try (intros [= <-]; head_done).
+    destruct (fr_div _ _); [|discriminate]. unfold mk_times. intros [= <-]. head_done.
+Qed.
+
+(* ------------------------------------------------------------------ the substitution lemma (MGS) *)
+Lemma rebuild_fn_nil f o args : rebuild_fn f [] o args = checked (rebuild o args).
+Proof. destruct o; reflexivity. Qed.
+
+Lemma checked_Some r t : checked r = Some t -> r = Some t.
+Proof. destruct r as [x|]; cbn; [|discriminate]. destruct (tc x); [intros [= <-]; reflexivity | discriminate]. Qed.
+
+Lemma mgs_key p s t t' v : subst_mgs_i p s t = Some t' -> lookup s t = Some v -> t' = v.
+Proof.
+  destruct t as [o args]. cbn [subst_mgs_i]. intros H L. destruct (is_quant o) as [[fa vs]|].
+  - destruct args as [|b [|c r]]; try discriminate. destruct (subst_mgs_i p (drop_bound vs s) b); [|discriminate].
+    rewrite L in H. congruence.
+  - destruct (omap (subst_mgs_i p s) args); [|discriminate]. rewrite L in H. congruence.
+Qed.
+
+Lemma upd_bind_agree s vs xs I b :
+  vals_ok xs vs ->
+  (forall k v, In (k, v) (drop_bound vs s) -> incl (fv k) (fv b) -> forall x, In x vs -> ~ In x (fv v)) ->
+  agree (fun v => In v (fv b)) (fun _ => True) (upd (bind I vs xs) (drop_bound vs s)) (bind (upd I s) vs xs).
+Proof.
+  intros Hok Hcap. split; [|split; [|split]].
+  - cbn. now rewrite !bind_rdiv0.
+  - cbn. now rewrite !bind_idiv0.
+  - intros n ty Hin. cbn [upd isym]. rewrite lookup_drop_bound, key_survives_sym.
+    destruct (mem var_eqb (n, ty) vs) eqn:M; cbn [negb].
+    + apply (mem_In var_eqb var_eqb_eq) in M. now apply bind_isym_in.
+    + assert (Hni : ~ In (n, ty) vs).
+      { intros H. apply (mem_In var_eqb var_eqb_eq) in H. congruence. }
+      rewrite (bind_isym_out vs xs (upd I s)) by auto. cbn [upd isym].
+      destruct (lookup s (TSym n ty)) as [v|] eqn:L.
+      * apply coincidence_gen. split; [|split; [|split]].
+        -- apply bind_rdiv0. -- apply bind_idiv0.
+        -- intros m tm Hm. apply bind_isym_out. intros Hmv.
+           assert (Hd : In (TSym n ty, v) (drop_bound vs s)).
+           { apply lookup_In. rewrite lookup_drop_bound, key_survives_sym, M. exact L. }
+           apply (Hcap _ _ Hd) with (x := (m, tm)); auto.
+           intros u Hu. cbn in Hu. destruct Hu as [<-|[]]. exact Hin.
+        -- intros m tm _. now rewrite bind_ifun.
+      * now apply bind_isym_out.
+  - intros n ty _. cbn. now rewrite !bind_ifun.
+Qed.
+
+Definition res_ok (s : smap) (t t' : term) : Prop :=
+  lookup s t = None -> top t <> ONot -> top t' <> ONot /\ realc_ok t'.
+
+Definition sem_stmt (t : term) : Prop :=
+  forall s I t', sym_keys s -> neg_values_ok s -> frag t = true -> no_capture s t -> bool_interp I ->
+                 subst_mgs_i [] s t = Some t' -> eval I t' = eval (upd I s) t /\ res_ok s t t'.
+
+Definition child_ok (s : smap) (I : interp) (a a' : term) : Prop :=
+  eval I a' = eval (upd I s) a /\
+  (top a <> ONot -> (forall l, a' = T ONot l -> exists y, l = [y] /\ bool_term y = true) /\ realc_ok a').
+
+Lemma children_ok s I : sym_keys s -> neg_values_ok s -> bool_interp I -> forall args args',
+  Forall sem_stmt args -> Forall (fun a => frag a = true) args -> Forall (no_capture s) args ->
+  Forall2 (fun a b => subst_mgs_i [] s a = Some b) args args' -> Forall2 (child_ok s I) args args'.
+Proof.
+  intros Hk Hv Hwf args args' IH Fa Ca Ea. induction Ea as [|a a' r r' Ha Hr IHr]; constructor.
+  - inversion IH as [|? ? IHa _]; inversion Fa as [|? ? Fa1 _]; inversion Ca as [|? ? Ca1 _]; subst.
+    destruct (IHa s I a' Hk Hv Fa1 Ca1 Hwf Ha) as [E R]. split; auto. intros Hna.
+    destruct (lookup s a) as [v|] eqn:La.
+    + pose proof (mgs_key _ _ _ _ _ Ha La). subst a'. destruct (Hv _ _ (lookup_In _ _ _ La)) as [N1 N2]. split; auto.
+    + destruct (R La Hna) as [R1 R2]. split; auto. intros l ->. exfalso. apply R1. reflexivity.
+  - apply IHr; [inversion IH | inversion Fa | inversion Ca]; auto.
+Qed.
+
+Lemma child_ok_map s I args args' : Forall2 (child_ok s I) args args' ->
+  map (eval I) args' = map (eval (upd I s)) args.
+Proof. induction 1 as [|a a' r r' [E _] _ IH]; cbn; congruence. Qed.
+
+Theorem subst_mgs_sem : forall t, sem_stmt t.
+Proof.
+  induction t as [o args IH] using term_ind'. intros s I t' Hk Hv Hf Hc Hwf Hs.
+  cbn [subst_mgs_i] in Hs. destruct (is_quant o) as [[fa vs]|] eqn:Hq.
+  - (* quantifier *)
+    destruct args as [|b [|c r]]; try discriminate.
+    destruct (subst_mgs_i [] (drop_bound vs s) b) as [b'|] eqn:Eb; [|discriminate].
+    assert (L : lookup s (T o [b]) = None).
+    { destruct (lookup s (T o [b])) eqn:L; auto. destruct (lookup_sym_keys _ _ _ Hk L) as (n & ty & E).
+      inversion E. }
+    rewrite L in Hs. apply checked_Some in Hs. injection Hs as <-.
+    inversion IH as [|? ? IHb _]; subst.
+    cbn [frag] in Hf. rewrite !andb_true_iff in Hf. destruct Hf as [[Hfo _] [Hfb _]].
+    cbn [no_capture] in Hc. rewrite Hq in Hc. destruct Hc as [Hcap Hcb].
+    assert (E : forall xs, vals_ok xs vs -> eval (bind I vs xs) b' = eval (bind (upd I s) vs xs) b).
+    { intros xs Hok.
+      destruct (IHb (drop_bound vs s) (bind I vs xs) b' (sym_keys_drop _ _ Hk) (neg_values_drop _ _ Hv)
+                    Hfb Hcb (wf_bind _ _ _ Hwf Hok) Eb) as [E _].
+      rewrite E. apply coincidence_gen.
+      eapply agree_weaken; [| |apply (upd_bind_agree s vs xs I b Hok Hcap)]; cbn; auto. }
+    destruct o; try discriminate; injection Hq as <- <-; destruct vs0 as [|v0 vs']; try discriminate Hfo;
+      cbn [mk_quant mk_forall mk_exists]; (split; [|intros _ _; head_done]); cbn [eval]; f_equal; apply emi_iff.
+    + split; intros G xs Hok; [rewrite <- E | rewrite E]; auto.
+    + split; intros (xs & Hok & G); exists xs; split; auto; [rewrite <- E | rewrite E]; auto.
+  - (* other operators *)
+    destruct (omap (subst_mgs_i [] s) args) as [args'|] eqn:Ea; [|discriminate]. apply omap_Forall2 in Ea.
+    destruct (lookup s (T o args)) as [v|] eqn:L.
+    + injection Hs as <-. destruct (lookup_sym_keys _ _ _ Hk L) as (n & ty & E). inversion E; subst. split.
+      * cbn [eval upd isym]. unfold TSym. now rewrite L.
+      * intros L'. congruence.
+    + rewrite rebuild_fn_nil in Hs. apply checked_Some in Hs.
+      pose proof (children_ok s I Hk Hv Hwf args args' IH (frag_args _ _ Hf) (no_capture_args _ _ _ Hq Hc) Ea) as Hch.
+      pose proof (child_ok_map _ _ _ _ Hch) as Hm.
+      pose proof (Forall2_length' _ _ _ Hch) as Hlen.
+      cbn [frag] in Hf. rewrite !andb_true_iff in Hf. destruct Hf as [[Hfo Hfx] _].
+      destruct (match o with OSymbol _ _ => true | _ => false end) eqn:Hsym.
+      * (* a symbol that is not a key *)
+        destruct o; try discriminate. destruct args' as [|x r]; [|discriminate Hs].
+        inversion Hch; subst. cbn in Hs. injection Hs as <-. split.
+        -- cbn [eval upd isym]. unfold TSym in *. now rewrite L.
+        -- intros _ _. head_done.
+      * assert (Hns : forall n ty, o <> OSymbol n ty) by (intros n ty ->; discriminate).
+        split.
+        -- rewrite (rebuild_sem I o args' t'); auto.
+           ++ apply eval_nonbinder; auto.
+           ++ now rewrite <- Hlen.
+           ++ intros a' l -> -> ->. inversion Hch as [|a ? ? ? [_ Ca] Hr]; subst. inversion Hr; subst.
+              cbn in Hfx. apply negb_true_iff in Hfx.
+              assert (Hna : top a <> ONot). { intros Et. unfold is_not in Hfx. now rewrite Et in Hfx. }
+              destruct (Ca Hna) as [N _]. destruct (N _ eq_refl) as (y & -> & Hy).
+              destruct (bool_term_val y I Hwf Hy) as [bb Hb]. eauto.
+           ++ intros a' b' -> ->. inversion Hch as [|a ? ? ? _ Hr]; subst.
+              inversion Hr as [|b ? ? ? [_ Cb] Hr']; subst. inversion Hr'; subst.
+              cbn in Hfx. apply negb_true_iff in Hfx.
+              assert (Hnb : top b <> ONot). { intros Et. unfold is_not in Hfx. now rewrite Et in Hfx. }
+              now destruct (Cb Hnb).
+        -- intros _ Hno. cbn [top] in Hno. apply (rebuild_head o args'); auto. now rewrite <- Hlen.
+Qed.
+
+Theorem subst_lemma_partial : forall s t I t',
+  sym_keys s -> neg_values_ok s -> frag t = true -> no_capture s t -> bool_interp I ->
+  subst_mgs s t = Some t' -> eval I t' = eval (upd I s) t.
+Proof. intros s t I t' H1 H2 H3 H4 H5 H6. exact (proj1 (subst_mgs_sem t s I t' H1 H2 H3 H4 H5 H6)). Qed.
+
+(* the hypotheses are satisfiable by a non-trivial instance: (forall y. x < y) /\ not b with
+   x := z + 1 and b := not c *)
+Definition ex_I : interp :=
+  {| isym := fun _ ty => match ty with TBool => VBool true | TInt => VInt 0 | _ => VBool false end;
+     ifun := fun _ _ _ => VBool false; rdiv0 := fun r => r; idiv0 := fun z => z |}.
+Definition ex_x := TSym "x" TInt.  Definition ex_y := TSym "y" TInt.  Definition ex_z := TSym "z" TInt.
+Definition ex_b := TSym "b" TBool. Definition ex_c := TSym "c" TBool.
+Definition ex_t := T OAnd [T (OForall [("y"%string, TInt)]) [T OLt [ex_x; ex_y]]; T ONot [ex_b]].
+Definition ex_s : smap := [(ex_x, T OPlus [ex_z; TIntC 1]); (ex_b, T ONot [ex_c])].
+
+Lemma ex_bool_interp : bool_interp ex_I.
+Proof. split; cbn; eauto. Qed.
+
+Example subst_lemma_example :
+  sym_keys ex_s /\ neg_values_ok ex_s /\ frag ex_t = true /\ no_capture ex_s ex_t /\ bool_interp ex_I /\
+  subst_mgs ex_s ex_t
+  = Some (T OAnd [T (OForall [("y"%string, TInt)]) [T OLt [T OPlus [ex_z; TIntC 1]; ex_y]]; ex_c]).
+Proof.
+  split; [|split; [|split; [|split; [|split]]]].
+  - intros k v [[= <- <-]|[[= <- <-]|[]]]; do 2 eexists; reflexivity.
+  - intros k v [[= <- <-]|[[= <- <-]|[]]]; split.
+    + intros l H; discriminate.
+    + intros n d l H; discriminate.
+    + intros l [= <-]. exists ex_c. split; reflexivity.
+    + intros n d l H; discriminate.
+  - reflexivity.
+  - cbn. repeat split; auto. intros k v [[= <- <-]|[[= <- <-]|[]]] _ x [<-|[]]; cbn; intuition congruence.
+  - exact ex_bool_interp.
+  - vm_compute. reflexivity.
+Qed.
+
+(* The proviso is needed: capture changes the meaning (excluded by the property). *)
+Example capture_changes_meaning :
+  let t := T (OExists [("y"%string, TInt)]) [T OLt [ex_x; ex_y]] in
+  let s := [(ex_x, ex_y)] in
+  subst_mgs s t = Some (T (OExists [("y"%string, TInt)]) [T OLt [ex_y; ex_y]]) /\ ~ no_capture s t.
+Proof.
+  split; [vm_compute; reflexivity|]. cbn. intros [H _].
+  apply (H ex_x ex_y (or_introl eq_refl)) with (x := ("y"%string, TInt)); cbn; auto.
+  intros u [<-|[]]. cbn. auto.
+Qed.
+
+(* ------------------------------------------------------------------ MSS: the lemma is false *)
+Definition mssw_t := T ONot [ex_b].
+Definition mssw_s : smap := [(ex_b, T ONot [ex_b])].
+
+Lemma mssw_facts :
+  sym_keys mssw_s /\ neg_values_ok mssw_s /\ frag mssw_t = true /\ no_capture mssw_s mssw_t /\
+  canon mssw_t = true /\ tc (T ONot [ex_b]) = tc ex_b /\
+  subst_mgs mssw_s mssw_t = Some ex_b /\ subst_mss mssw_s mssw_t = Some (T ONot [ex_b]).
+Proof.
+  split; [|split; [|split; [|split; [|split; [|split; [|split]]]]]]; try (vm_compute; reflexivity).
+  - intros k v [[= <- <-]|[]]; do 2 eexists; reflexivity.
+  - intros k v [[= <- <-]|[]]; split; [intros l [= <-]; exists ex_b; split; reflexivity | intros n d l H; discriminate].
+  - cbn. auto.
+Qed.
+
+(* MSSubstituter(Not b, {b: Not b}) = Not b: the rebuilt node Not(Not b) is normalised to b by
+   the constructor, and b is a key again, so it is replaced a second time. *)
+Theorem subst_lemma_mss_refuted :
+  exists s t t' I, sym_keys s /\ neg_values_ok s /\ frag t = true /\ no_capture s t /\ bool_interp I /\
+                   subst_mss s t = Some t' /\ eval I t' <> eval (upd I s) t.
+Proof.
+  exists mssw_s, mssw_t, (T ONot [ex_b]), ex_I.
+  destruct mssw_facts as (A & B & C & D & _ & _ & _ & E).
+  split; [exact A|]. split; [exact B|]. split; [exact C|]. split; [exact D|].
+  split; [exact ex_bool_interp|]. split; [exact E|].
+  vm_compute. discriminate.
+Qed.
+
+Theorem mgs_mss_sym_refuted :
+  exists s t, sym_keys s /\ canon t = true /\ (forall k v, In (k, v) s -> tc v = tc k) /\
+              subst_mgs s t <> subst_mss s t.
+Proof.
+  exists mssw_s, mssw_t. destruct mssw_facts as (A & _ & _ & _ & C & T1 & M1 & M2).
+  repeat split; auto.
+  - intros k v [[= <- <-]|[]]. exact T1.
+  - rewrite M1, M2. discriminate.
+Qed.
+
+(* ------------------------------------------------------------------ bound occurrences are never replaced:
+   a map entry whose key mentions a variable bound by the quantifier (in particular the entry for
+   the bound symbol itself) has no effect on the quantified formula, for both strategies, with or
+   without interpretations. *)
+Lemma key_dropped vs k x : In x vs -> In x (fv k) -> key_survives vs k = false.
+Proof.
+  intros Hv Hk. unfold key_survives. destruct (forallb _ (fv k)) eqn:E; auto.
+  rewrite forallb_forall in E. specialize (E x Hk). apply negb_true_iff in E.
+  apply (mem_In var_eqb var_eqb_eq) in Hv. congruence.
+Qed.
+
+Lemma lookup_cons_ne k v s q : k <> q -> lookup ((k, v) :: s) q = lookup s q.
+Proof.
+  intros H. unfold lookup. cbn [assoc_get]. destruct (term_eqb q k) eqn:E; auto.
+  apply term_eqb_eq in E. congruence.
+Qed.
+
+Definition quant_op (fa : bool) (vs : list var) : op := if fa then OForall vs else OExists vs.
+
+Theorem bound_untouched_mgs : forall p s k v fa vs b x,
+  In x vs -> In x (fv k) -> k <> T (quant_op fa vs) [b] ->
+  subst_mgs_i p ((k, v) :: s) (T (quant_op fa vs) [b]) = subst_mgs_i p s (T (quant_op fa vs) [b]).
+Proof.
+  intros p s k v fa vs b x Hv Hk Hne.
+  assert (D : drop_bound vs ((k, v) :: s) = drop_bound vs s).
+  { unfold drop_bound. cbn [filter fst]. now rewrite (key_dropped vs k x Hv Hk). }
+  destruct fa; cbn [quant_op] in *; cbn [subst_mgs_i is_quant]; rewrite D, (lookup_cons_ne k v s _ Hne); reflexivity.
+Qed.
+
+Theorem bound_untouched_mss : forall p s k v fa vs b x,
+  In x vs -> In x (fv k) ->
+  subst_mss_i p ((k, v) :: s) (T (quant_op fa vs) [b]) = subst_mss_i p s (T (quant_op fa vs) [b]).
+Proof.
+  intros p s k v fa vs b x Hv Hk.
+  assert (D : drop_bound vs ((k, v) :: s) = drop_bound vs s).
+  { unfold drop_bound. cbn [filter fst]. now rewrite (key_dropped vs k x Hv Hk). }
+  assert (R : forall b', replace_after ((k, v) :: s) (checked (Some (mk_quant fa vs b')))
+                         = replace_after s (checked (Some (mk_quant fa vs b')))).
+  { intros b'. destruct (checked (Some (mk_quant fa vs b'))) as [r|] eqn:C; [|reflexivity].
+    apply checked_Some in C. injection C as <-. cbn [replace_after]. rewrite lookup_cons_ne; auto.
+    (* the rebuilt quantifier binds x, the key mentions x free *)
+    intros ->. destruct vs as [|v0 vs']; [contradiction|].
+    assert (~ In x (fv (mk_quant fa (v0 :: vs') b'))).
+    { destruct fa; cbn [mk_quant mk_forall mk_exists fv]; intros H;
+        apply (diff_In var_eqb var_eqb_eq) in H; tauto. }
+    contradiction. }
+  destruct fa; cbn [quant_op subst_mss_i is_quant]; rewrite D;
+    (destruct (subst_mss_i p (drop_bound vs s) b); [apply R | reflexivity]).
+Qed.
+
+(* ------------------------------------------------------------------ most-general: a key wins over everything
+   below it - whenever the call returns.  The children of a key are nevertheless walked and
+   rebuilt first (post-order stack), so a constructor that raises below a key makes the whole
+   call raise although the documented result is the replacement of the key. *)
+Theorem mgs_key_first : forall p s t t' v,
+  subst_mgs_i p s t = Some t' -> lookup s t = Some v -> t' = v.
+Proof. exact mgs_key. Qed.
+
+Definition keyw_x := TSym "x" TReal.  Definition keyw_r := TSym "r" TReal.
+Definition keyw_t := T OLt [T OPow [keyw_x; TRealC 2 1]; TRealC 1 1].
+Definition keyw_s : smap := [(keyw_t, TTrue); (TRealC 2 1, keyw_r)].
+
+Theorem mgs_key_raises_witness :
+  exists s t v, lookup s t = Some v /\ (forall k v', In (k, v') s -> tc v' = tc k) /\ canon t = true /\
+                args_ok s t = true /\ subst_mgs s t = None.
+Proof.
+  exists keyw_s, keyw_t, TTrue. repeat split; try (vm_compute; reflexivity).
+  intros k v' [[= <- <-]|[[= <- <-]|[]]]; vm_compute; reflexivity.
+Qed.
+
+(* ------------------------------------------------------------------ MGS = MSS on symbol keys, where it holds:
+   no replacement term is a negation (the refuted case), formula in the fragment *)
+Definition is_sym_op (o : op) : bool := match o with OSymbol _ _ => true | _ => false end.
+Ltac nosym_done := cbn; congruence.
+
+Lemma rebuild_not_sym o args r :
+  frag_op o (List.length args) = true -> is_sym_op o = false ->
+  (forall a, o = ONot -> args = [a] -> top a <> ONot) ->
+  rebuild o args = Some r -> is_sym_op (top r) = false.
+Proof.
+  intros Hf Hn Hnot.
+  destruct o; try discriminate Hf; try discriminate Hn.
+  all: try solve [args4 args; cbn in Hf |- *; try discriminate; intros [= <-]; reflexivity].
+  - (* not *) args4 args; try discriminate Hf. cbn [rebuild]. unfold mk_not, is_not.
+    specialize (Hnot a eq_refl eq_refl). destruct (top a); try (intros [= <-]; reflexivity). congruence.
+  - cbn [rebuild]. unfold mk_function. args4 args; try discriminate Hf;
+      (destruct t; try discriminate; destruct (Nat.eqb _ _); [|discriminate]; intros [= <-]; reflexivity).
+  - args4 args; try discriminate. cbn [rebuild]. unfold mk_real. cbn [fst snd].
+    destruct (fr_norm num den). intros [= <-]. reflexivity.
+  - args4 args; try discriminate. cbn [rebuild]. unfold mk_bv.
+    destruct (v <? 0)%Z; [discriminate|]. destruct (2 ^ w <=? v)%Z; [discriminate|]. intros [= <-]. reflexivity.
+  - destruct k; args4 args; cbn; try discriminate; intros [= <-]; reflexivity.
+  - args4 args; try discriminate. cbn [rebuild]. unfold mk_bvextract.
+    destruct ((e <? s)%Z || (s <? 0)%Z); [discriminate|]. destruct (bv_width a <? e - s + 1)%Z; [discriminate|].
+    intros [= <-]. reflexivity.
+  - destruct k; cbn [rebuild]; unfold mk_strconcat;
+      try (destruct (Nat.eqb _ _); [|discriminate]); try (intros [= <-]; reflexivity).
+    args4 args; try discriminate; intros [= <-]; reflexivity.
+  - args4 args; try discriminate. cbn [rebuild]. unfold mk_div.
+    destruct (is_zero b); [intros [= <-]; reflexivity|].
+    destruct (top b); try (intros [= <-]; reflexivity).
+    destruct (fr_div _ _); [|discriminate]. unfold mk_times. intros [= <-]. reflexivity.
+Qed.
+
+Definition no_neg_values (s : smap) : Prop := forall k v, In (k, v) s -> top v <> ONot.
+
+Lemma lookup_not_sym s r : sym_keys s -> is_sym_op (top r) = false -> lookup s r = None.
+Proof.
+  intros Hk Hr. destruct (lookup s r) eqn:L; auto.
+  destruct (lookup_sym_keys _ _ _ Hk L) as (n & ty & ->). discriminate.
+Qed.
+
+Lemma mgs_head s t t' : sym_keys s -> no_neg_values s -> frag t = true -> top t <> ONot ->
+  subst_mgs_i [] s t = Some t' -> top t' <> ONot.
+Proof.
+  intros Hk Hv Hf Hn. destruct t as [o args]. cbn [subst_mgs_i top] in *.
+  cbn [frag] in Hf. rewrite !andb_true_iff in Hf. destruct Hf as [[Hfo _] _].
+  destruct (is_quant o) as [[fa vs]|] eqn:Hq.
+  - destruct args as [|b [|c r]]; try discriminate.
+    destruct (subst_mgs_i [] (drop_bound vs s) b); [|discriminate].
+    destruct (lookup s (T o [b])) eqn:L.
+    + intros [= <-]. apply lookup_In in L. eauto.
+    + intros H. apply checked_Some in H. injection H as <-.
+      destruct o; try discriminate; injection Hq as <- <-; destruct vs0; try discriminate Hfo; cbn; congruence.
+  - destruct (omap (subst_mgs_i [] s) args) as [args'|] eqn:Ea; [|discriminate].
+    apply omap_Forall2 in Ea. pose proof (Forall2_length' _ _ _ Ea) as Hl.
+    destruct (lookup s (T o args)) eqn:L.
+    + intros [= <-]. apply lookup_In in L. eauto.
+    + rewrite rebuild_fn_nil. intros H. apply checked_Some in H.
+      apply (rebuild_head o args'); auto. now rewrite <- Hl.
+Qed.
+
+Lemma omap_ext_Forall {A B} (f g : A -> option B) l :
+  Forall (fun a => f a = g a) l -> omap f l = omap g l.
+Proof.
+  induction 1 as [|x r Hx _ IH]; [reflexivity|]. cbn.
+  change ((fix go (l : list A) : option (list B) :=
+             match l with [] => Some [] | x :: r => match f x, go r with Some y, Some ys => Some (y :: ys) | _, _ => None end end) r)
+    with (omap f r).
+  change ((fix go (l : list A) : option (list B) :=
+             match l with [] => Some [] | x :: r => match g x, go r with Some y, Some ys => Some (y :: ys) | _, _ => None end end) r)
+    with (omap g r).
+  now rewrite Hx, IH.
+Qed.
+
+Lemma no_neg_drop vs s : no_neg_values s -> no_neg_values (drop_bound vs s).
+Proof. intros H k v Hin. apply drop_bound_In in Hin. eauto. Qed.
+
+Theorem mgs_mss_sym_partial : forall t s,
+  sym_keys s -> no_neg_values s -> frag t = true -> subst_mgs s t = subst_mss s t.
+Proof.
+  unfold subst_mgs, subst_mss.
+  induction t as [o args IH] using term_ind'. intros s Hk Hv Hf.
+  pose proof (frag_args _ _ Hf) as Fa.
+  cbn [subst_mgs_i subst_mss_i]. destruct (is_quant o) as [[fa vs]|] eqn:Hq.
+  - destruct args as [|b [|c r]]; try reflexivity.
+    inversion IH as [|? ? IHb _]; inversion Fa as [|? ? Fb _]; subst.
+    rewrite <- (IHb (drop_bound vs s) (sym_keys_drop _ _ Hk) (no_neg_drop _ _ Hv) Fb).
+    destruct (subst_mgs_i [] (drop_bound vs s) b) as [b'|]; [|reflexivity].
+    assert (L : lookup s (T o [b]) = None).
+    { apply lookup_not_sym; auto. destruct o; try discriminate; reflexivity. }
+    rewrite L. destruct (checked (Some (mk_quant fa vs b'))) as [r|] eqn:C; [|reflexivity].
+    cbn [replace_after]. apply checked_Some in C. injection C as <-.
+    cbn [frag] in Hf. rewrite !andb_true_iff in Hf. destruct Hf as [[Hfo _] _].
+    rewrite lookup_not_sym; auto.
+    destruct o; try discriminate; injection Hq as <- <-; destruct vs0; try discriminate Hfo; reflexivity.
+  - assert (E : omap (subst_mgs_i [] s) args = omap (subst_mss_i [] s) args).
+    { apply omap_ext_Forall. rewrite Forall_forall in IH, Fa |- *. intros a Ha. apply IH; auto. }
+    rewrite <- E. destruct (omap (subst_mgs_i [] s) args) as [args'|] eqn:Ea; [|reflexivity].
+    apply omap_Forall2 in Ea. pose proof (Forall2_length' _ _ _ Ea) as Hl.
+    rewrite rebuild_fn_nil.
+    cbn [frag] in Hf. rewrite !andb_true_iff in Hf. destruct Hf as [[Hfo Hfx] _].
+    destruct (is_sym_op o) eqn:Hs.
+    + (* a symbol: rebuilt as itself *)
+      destruct o; try discriminate. destruct args' as [|x r].
+      * inversion Ea; subst. cbn [rebuild checked TSym tc tc_rule replace_after]. unfold TSym.
+        destruct (lookup s (T (OSymbol n t) [])); reflexivity.
+      * inversion Ea; subst. cbn [rebuild checked replace_after].
+        destruct (lookup s (T (OSymbol n t) (_ :: _))) eqn:L; [|reflexivity].
+        destruct (lookup_sym_keys _ _ _ Hk L) as (n' & ty' & E'). discriminate E'.
+    + rewrite (lookup_not_sym s (T o args)) by auto.
+      destruct (checked (rebuild o args')) as [r|] eqn:C; [|reflexivity]. cbn [replace_after].
+      apply checked_Some in C. rewrite lookup_not_sym; auto.
+      apply (rebuild_not_sym o args'); auto; [now rewrite <- Hl|].
+      intros a' -> ->. inversion Ea as [|a ? ? ? Ha Hr]; subst. inversion Hr; subst.
+      cbn in Hfx. apply negb_true_iff in Hfx. inversion Fa; subst.
+      eapply (mgs_head s a a'); eauto. intros Et. unfold is_not in Hfx. now rewrite Et in Hfx.
+Qed.
+
+Theorem subst_lemma_mss_partial : forall s t I t',
+  sym_keys s -> no_neg_values s -> (forall k v, In (k, v) s -> realc_ok v) ->
+  frag t = true -> no_capture s t -> bool_interp I ->
+  subst_mss s t = Some t' -> eval I t' = eval (upd I s) t.
+Proof.
+  intros s t I t' Hk Hn Hr Hf Hc Hb Hs. rewrite <- (mgs_mss_sym_partial t s Hk Hn Hf) in Hs.
+  apply (subst_lemma_partial s t I t'); auto.
+  intros k v Hin. split; [|eauto]. intros l ->. exfalso. apply (Hn _ _ Hin). reflexivity.
+Qed.
